@@ -432,7 +432,7 @@ def run_world(ctx):
         ctx.add_tlc('BallWorldMC(%s)' % topo, r, {'Balls': 3, 'Devs': 3, 'MaxOps': 4 if ctx.quick else 6})
         with open(wd + '/Gen.cfg', 'w') as f:
             f.write(cfg_text('Spec', topo, 9, ''))
-        behs, _ = tlc.simulate(wd, 'BallWorldMC', 'Gen.cfg', num=100 if ctx.quick else 2000, depth=40, seed=ctx.seed)
+        behs, _ = tlc.simulate(wd, 'BallWorldMC', 'Gen.cfg', num=60 if ctx.quick else 1500, depth=40, seed=ctx.seed)
         jobs = [([s['act'] for s in b], ctx.seed * 1000 + i, topo) for i, b in enumerate(behs)]
         jobs += [(s, ctx.seed * 77 + i, topo) for i, s in enumerate(handmade())]
         traces = harness.pmap(exec_schedule, jobs, chunk=2, item_timeout=180)
